@@ -719,6 +719,10 @@ func validateEphemeralSiafundElement(ms *MidState, sfi types.V2SiafundInput) err
 		// the claim start of an ephemeral parent is otherwise unchecked at
 		// these heights; applying such an input would underflow
 		return fmt.Errorf("claims start (%v) beyond the current siafund tax revenue for ephemeral output %v", sfi.Parent.ClaimStart, sfi.Parent.ID)
+	} else if _, overflow := ms.siafundTaxRevenue.Sub(sfi.Parent.ClaimStart).Div64(ms.base.SiafundCount()).Mul64WithOverflow(sfi.Parent.SiafundOutput.Value); overflow {
+		// likewise, the stated value is unchecked at these heights (and the
+		// siafund sums are computed modulo 2^64)
+		return fmt.Errorf("claims a value (%d SF) whose siafund claim overflows for ephemeral output %v", sfi.Parent.SiafundOutput.Value, sfi.Parent.ID)
 	}
 	return nil
 }
